@@ -43,6 +43,33 @@ func mkSSCfg(name string, psk []byte, eih bool) *ssCfg {
 	return c
 }
 
+// AEAD instances are cached per (key, salt): deriving a session subkey is by far
+// the most expensive step and the harness reuses a handful of salts.
+var aeadCache = map[string]cipher.AEAD{}
+
+func cachedAEAD(u ss2022.UserCipherConfig, salt []byte) (cipher.AEAD, error) {
+	k := string(u.PSK) + "|" + string(salt)
+	if a, ok := aeadCache[k]; ok {
+		return a, nil
+	}
+	a, err := u.AEAD(salt)
+	if err != nil {
+		return nil, err
+	}
+	if len(aeadCache) < 4096 {
+		aeadCache[k] = a
+	}
+	return a, nil
+}
+
+func cachedStreamCipher(u ss2022.UserCipherConfig, salt []byte) (*ss2022.ShadowStreamCipher, error) {
+	a, err := cachedAEAD(u, salt)
+	if err != nil {
+		return nil, err
+	}
+	return ss2022.NewShadowStreamCipher(a), nil
+}
+
 func (c *ssCfg) newStreamServer() *ss2022.StreamServer {
 	s := (&ss2022.StreamServerConfig{
 		UserCipherConfig:          c.ucc,
@@ -122,7 +149,7 @@ func (c *ssCfg) buildReq(spec []byte) []byte {
 		blk.Encrypt(eh, plain)
 		wire = append(wire, eh...)
 	}
-	sc := must(c.userCfg().ShadowStreamCipher(salt))
+	sc := must(cachedStreamCipher(c.userCfg(), salt))
 	var fixed, vh []byte
 	switch spec[0] {
 	case kFixedVar:
@@ -189,7 +216,7 @@ func (c *ssCfg) refReq(wire []byte) (r ssReqRef) {
 		r.user = u.Name
 		p += 16
 	}
-	sc, err := ucfg.ShadowStreamCipher(salt)
+	sc, err := cachedStreamCipher(ucfg, salt)
 	if err != nil {
 		return
 	}
@@ -265,7 +292,7 @@ func (c *ssCfg) buildResp(spec, reqSalt []byte) []byte {
 	}
 	salt := c.salt(0x70)
 	wire := cat([]byte{}, salt)
-	sc := must(c.userCfg().ShadowStreamCipher(salt))
+	sc := must(cachedStreamCipher(c.userCfg(), salt))
 	hl := 11 + c.saltLen
 	var hdr, first []byte
 	switch spec[0] {
@@ -300,7 +327,7 @@ func (c *ssCfg) refResp(wire, reqSalt []byte) (stream []byte, ok bool) {
 		return nil, false
 	}
 	salt := wire[:c.saltLen]
-	sc, err := c.userCfg().ShadowStreamCipher(salt)
+	sc, err := cachedStreamCipher(c.userCfg(), salt)
 	if err != nil {
 		return nil, false
 	}
@@ -367,7 +394,7 @@ func (c *ssCfg) buildClientPacket(spec []byte) []byte {
 		return body
 	}
 	sep, msg := body[:16], body[16:]
-	aead := must(c.userCfg().AEAD(sep[:8]))
+	aead := must(cachedAEAD(c.userCfg(), sep[:8]))
 	wire := make([]byte, 16, 64+len(msg))
 	c.sepBlock().Encrypt(wire, sep)
 	if c.eih {
@@ -401,7 +428,7 @@ func (c *ssCfg) refClientPacket(wire []byte) (a refAddr, payload []byte, user st
 		ucfg = u.UserCipherConfig
 		user = u.Name
 	}
-	aead, err := ucfg.AEAD(sep[:8])
+	aead, err := cachedAEAD(ucfg, sep[:8])
 	if err != nil {
 		return
 	}
@@ -423,7 +450,7 @@ func (c *ssCfg) buildServerPacket(spec []byte) []byte {
 		return body
 	}
 	sep, msg := body[:16], body[16:]
-	aead := must(c.userCfg().AEAD(sep[:8]))
+	aead := must(cachedAEAD(c.userCfg(), sep[:8]))
 	wire := make([]byte, 16, 32+len(msg))
 	c.userCfg().Block().Encrypt(wire, sep)
 	return aead.Seal(wire, sep[4:16], msg, nil)
@@ -436,7 +463,7 @@ func (c *ssCfg) refServerPacket(wire []byte, csid uint64) (a refAddr, payload []
 	sep := make([]byte, 16)
 	c.userCfg().Block().Decrypt(sep, wire[:16])
 	ssid = binary.BigEndian.Uint64(sep)
-	aead, err := c.userCfg().AEAD(sep[:8])
+	aead, err := cachedAEAD(c.userCfg(), sep[:8])
 	if err != nil {
 		return
 	}
